@@ -14,13 +14,13 @@ TECHNIQUE = ('exhaustive enumeration of all angle histories up to depth 3/4 over
              '(two representatives per open interval between the finitely many gate values) against a reference automaton')
 RULE = ('boundary sets {[0,180,360],[0,160,360],[0,120,240,360]} x buffers {0,1,15,45,59.5,60,75,85,89,90,95,100,110,119,120,150,179} '
         'within range x all angle sequences of length 1..3 (T: ..4) over the region alphabet (2 representatives of every open '
-        'interval between consecutive critical values 0,B_i,B_i+-b,b,360-b,360, plus the hard boundaries themselves when they are not gates); transitions(): all 1-D sequences len<=5 over 3 '
+        'interval between consecutive critical values 0,B_i,B_i+-b,b,360-b,360, plus the hard boundaries themselves when they are not gates); the public wrappers phi/psi/chi/all_rotamers for every buffer width on (up to 1500) angle histories of length 1..3 per dihedral type, fed through a stub of the dihedral computation; transitions(): all 1-D sequences len<=5 over 3 '
         'states, all matrices up to 3x3 and 2x4 (T: 3x4) over {0,1,2}, long sequences in int8/uint8/int16 with transitions beyond the range of the dtype; state=(boundaries,buffer,angle sequence); non-trivial = '
         'sequence on which the hysteresis answer differs from plain binning')
 ASSUMPTIONS = ['angles equal to a gate value (B_i +- buffer mod 360) are excluded, as the property allows; hard boundaries are included when buffer > 0',
                'the region alphabet is exact: all comparisons in the code are against the listed critical values, so two angles '
                'in the same open interval are indistinguishable to the implementation']
-GUARDS = {'long_narrow': 5, 'hysteresis_differs_from_binning': 1000, 'wide_buffer_wraps': 1000, 'wraparound_stay': 1000,
+GUARDS = {'public_wrappers': 20, 'long_narrow': 5, 'hysteresis_differs_from_binning': 1000, 'wide_buffer_wraps': 1000, 'wraparound_stay': 1000,
           'quiet_trailing_row': 100, 'all_quiet': 10}
 BSETS = ([0, 180, 360], [0, 160, 360], [0, 120, 240, 360])
 BUFFERS = (0, 1, 15, 45, 59.5, 60, 75, 85, 89, 90, 95, 100, 110, 119, 120, 150, 179)
@@ -36,7 +36,7 @@ def configs():
 
 
 def shards(tier, seed):
-    return [('rot', tier, i) for i in range(len(configs()))] + [('trans', tier, i) for i in range(8)]
+    return [('rot', tier, i) for i in range(len(configs()))] + [('trans', tier, i) for i in range(8)] + [('wrap', tier, i) for i in range(4)]
 
 
 def alphabet(B, b):
@@ -116,6 +116,63 @@ def check_seq(case, ctx):
         ctx.guard('wraparound_stay')
 
 
+WRAPPERS = {'phi': ([0, 180, 360], 0.0), 'psi': ([0, 160, 360], 100.0), 'chi': ([0, 120, 240, 360], 0.0)}
+
+
+def check_wrappers(case, ctx):
+    """the public per-dihedral wrappers (phi/psi/chi/all_rotamers) with the requested buffer width; the dihedral
+    computation is replaced by a stub that returns the angle histories the explorer chose (harness seam, no source hook)"""
+    from enspara.geometry import rotamer
+    b, L = case['b'], case['len']
+    ctx.ev()
+    cols, wants = {}, {}
+    for name, (B, shift) in WRAPPERS.items():
+        if not b < 360.0 / (len(B) - 1):
+            return
+        alpha = alphabet(B, b)
+        seqs_ = list(itertools.product(alpha, repeat=L))
+        if len(seqs_) > 1500:
+            seqs_ = seqs_[::len(seqs_) // 1500 + 1]
+        raw = (np.array(seqs_, dtype=float).T + shift) % 360.0          # (frames, dihedrals), as mdtraj would give them
+        cols[name] = raw
+        wants[name] = np.array([reference(list(sq), B, b) for sq in seqs_]).T
+    ctx.state(('wrappers', b, L), nontrivial=True)
+    ctx.guard('public_wrappers')
+
+    def stub(traj, kind):
+        key = {'phi': 'phi', 'psi': 'psi', 'chi1': 'chi'}.get(kind)
+        if key is None:
+            return np.zeros((L, 0)), np.zeros((0, 4), dtype=int)
+        a = cols[key].copy()
+        return a, np.arange(a.shape[1] * 4).reshape(-1, 4)
+    orig = rotamer.dihedral_angles
+    rotamer.dihedral_angles = stub
+    try:
+        outs = {'phi': rotamer.phi_rotamers(None, buffer_width=b)[0], 'psi': rotamer.psi_rotamers(None, buffer_width=b)[0],
+                'chi': rotamer.chi_rotamers(None, buffer_width=b)[0]}
+        allr, inds, nst = rotamer.all_rotamers(None, buffer_width=b)
+    except Exception as e:
+        ctx.violation('wrappers:raises:%s' % type(e).__name__, case, 'raised %r on %r' % (e, case))
+        return
+    finally:
+        rotamer.dihedral_angles = orig
+    for name in ('phi', 'psi', 'chi'):
+        got = np.asarray(outs[name])
+        if got.shape != wants[name].shape or not np.array_equal(got, wants[name]):
+            bad = np.argwhere(got != wants[name])[0] if got.shape == wants[name].shape else None
+            ctx.violation('wrappers:%s_rotamers:%s' % (name, 'default_buffer' if b == 15 else 'other_buffer'), case,
+                          '%s_rotamers(buffer_width=%r): column %r angles %r -> %r, reference automaton %r' % (
+                              name, b, None if bad is None else int(bad[1]),
+                              None if bad is None else cols[name][:, bad[1]].tolist(), None if bad is None else got[:, bad[1]].tolist(),
+                              None if bad is None else wants[name][:, bad[1]].tolist()))
+            return
+    want_all = np.concatenate([wants['phi'], wants['psi'], wants['chi']], axis=1)
+    if np.asarray(allr).shape != want_all.shape or not np.array_equal(allr, want_all):
+        ctx.violation('wrappers:all_rotamers', case, 'all_rotamers(buffer_width=%r) differs from [phi|psi|chi] of the reference automaton' % b)
+    elif len(nst) != want_all.shape[1] or len(inds) != want_all.shape[1]:
+        ctx.violation('wrappers:all_rotamers:bookkeeping', case, 'n_states / atom index rows do not match the number of dihedrals')
+
+
 def trans_oracle(a):
     a = np.asarray(a)
     if a.ndim == 1:
@@ -162,6 +219,14 @@ def check_trans(case, ctx):
 
 def run_shard(sh, ctx):
     kind, tier, i = sh
+    if kind == 'wrap':
+        for k, b in enumerate(BUFFERS):
+            if k % 4 == i:
+                for L in (1, 2, 3):
+                    c = {'kind': 'wrap', 'b': b, 'len': L}
+                    check_wrappers(c, ctx)
+        ctx.sample(c)
+        return
     if kind == 'rot':
         B, b = configs()[i]
         alpha = alphabet(B, b)
@@ -202,7 +267,9 @@ def run_shard(sh, ctx):
 
 
 def replay(case, ctx):
-    if case['kind'] == 'rot':
+    if case['kind'] == 'wrap':
+        check_wrappers(case, ctx)
+    elif case['kind'] == 'rot':
         check_seq(case, ctx)
     else:
         check_trans(case, ctx)
